@@ -65,3 +65,14 @@ extern "C" int h_query(const void* slot, unsigned d, double x, double* out){
     return 0;
   }catch(...){ return 1; }
 }
+
+// a thread whose only library call is a query on the shared solver with an operator that another thread created
+extern "C" int h_query_shared_op(const void* slot, const void* opslot, double x, double* out){
+  try{
+    const Sys18* s=static_cast<const Sys18*>(slot);
+    const SU_vector* op=static_cast<const SU_vector*>(opslot);
+    out[0]=s->GetExpectationValueD(*op,0,x);
+    return 0;
+  }catch(...){ return 1; }
+}
+extern "C" int h_make_projector(void* slot, unsigned d){ try{ new(slot) SU_vector(SU_vector::Projector(d,0)); return 0; }catch(...){ return 1; } }
